@@ -14,7 +14,9 @@ CHECKS = {
              'full word domain of the property (k<2^63, n<2^32, d<=1e9, n*d<2^64, year<9999): z3 shows second/picosecond/ceil equal the exact '
              'rational values and that no 64-bit operation wraps; monotonicity and the inverse law are decided per concrete rate (linear twin, '
              'complete). The Python wrapper int(ps/1e6) is decided with an exact IEEE round-to-nearest-even encoding in LIA. Loop-free code, so '
-             'no unwinding bound is involved.',
+             'no unwinding bound is involved. Floating point introduced into a kernel is modelled exactly (IEEE RNE in LIA), and a calendar breakdown '
+             'computed by the code itself (no libc gmtime) is decided against a characterisation of the proleptic Gregorian calendar for every second '
+             'from 1970 to year 9999 (1980..2100 if the code loops over years).',
         note='Trusted: z3, the IR executor (vlib/llsym.py; validated each run against the real build on seeded inputs and solver witnesses via '
              'ctypes), libc gmtime / CPython datetime calendar arithmetic, PyArg_ParseTuple glue.',
         technique='symbolic execution of LLVM IR to SMT (z3 Int/NIA with Euclid variables; per-rate LIA twins; IEEE RNE as LIA)',
@@ -45,7 +47,11 @@ CHECKS = {
              '(X) one solver witness per path shape of the regular-window twins is run on the real build: C writer -> files -> real reader == '
              'reference model. (E) the Python extension (python/lib/py_rf_write_hdf5.c) is executed from its own IR with symbolic numpy arrays: it hands '
              'the library exactly the caller\'s blocks (data pointer = base + block offset x row stride, next sample, length, order). '
-             'Bounds: <=3 blocks, <=3 files per call, <=3 index rows per file on the reader side.',
+             '(W2) inductive step: one call from ANY writer state satisfying the representation invariant Inv_W (a file open, symbolic cursor / row count / '
+             'index rows / sequence number), every accepted call shown to re-establish Inv_W, so the per-call obligations hold for call number k of a '
+             'history of any length. (P) CrossHair runs the real DigitalRFWriter.__init__ / _cast_input_array over every dtype descriptor (numpy replaced by '
+             'a validated descriptor-level stand-in): the array handed to the extension has exactly the element representation declared to the C library. '
+             'Bounds: <=3 blocks (thorough 4), <=3 files per call (thorough 4), <=3 index rows per file on the reader side.',
         note='Trusted: z3, CrossHair, vlib/llsym.py IR semantics, environment stubs (fresh channel, no faults), HDF5 storing what H5Dwrite is '
              'given. N1 (reader candidate file list vs writer naming) is decided in checks/readerside.py.',
         technique='symbolic execution of LLVM IR to SMT (z3) with compositional summaries + CrossHair on the real Python reader',
@@ -55,7 +61,8 @@ CHECKS = {
         text='W0 shows rows_to_write == -1 <=> Malformed(g, b, vlen, cursor) with all arguments symbolic; the whole C write path is then executed '
              'with ARBITRARY block arrays after zero or one accepted call (all modes, both C entry points, NULL data, zero-length calls): on '
              'every path a call is rejected iff it is malformed, a rejected call issues no mutating HDF5/file-system operation and leaves the '
-             'cursor and open-file state unchanged, and a malformed call is never accepted.',
+             'cursor and open-file state unchanged, and a malformed call is never accepted. The same is decided for an arbitrary call from ANY state '
+             'satisfying the representation invariant Inv_W (inductive step: rejection atomicity for call number k of any history).',
         note='Trusted: z3, IR executor, stubs. chunk_size may be fixed by a rejected first call (not observable per the property). The Python '
              'pre-validation is decided in checks/pylayer.py.',
         technique='symbolic execution of LLVM IR to SMT (z3), path-chained call histories',
